@@ -451,6 +451,10 @@ impl SubMsg {
         ensures r.msg == m.to_cosmos(), r.reply_on is Always, r.id == id, r.gas_limit is None { unimplemented!() }
 }
 pub open spec fn plain_sub(m: CosmosMsg) -> SubMsg { SubMsg { id: 0, msg: m, gas_limit: None, reply_on: ReplyOn::Never } }
+/// what `Response::add_messages` accepts: a list of anything that converts into a CosmosMsg (each becomes a plain sub-message)
+pub trait MsgList: Sized { spec fn subs(self) -> Seq<SubMsg>; }
+impl MsgList for Vec<CosmosMsg> { open spec fn subs(self) -> Seq<SubMsg> { self@.map_values(|m: CosmosMsg| plain_sub(m)) } }
+impl MsgList for Vec<WasmMsg> { open spec fn subs(self) -> Seq<SubMsg> { self@.map_values(|m: WasmMsg| plain_sub(CosmosMsg::Wasm(m))) } }
 pub struct Response { pub messages: Vec<SubMsg>, pub data: Option<Binary> }
 impl Response {
     /// the messages of the response, in order
@@ -461,8 +465,8 @@ impl Response {
     #[verifier::external_body] pub fn default() -> (r: Response) ensures r.messages@ == Seq::<SubMsg>::empty(), r.data is None { unimplemented!() }
     #[verifier::external_body] pub fn add_message<M: IntoCosmos>(self, m: M) -> (r: Response)
         ensures r.messages@ == self.messages@.push(plain_sub(m.to_cosmos())), r.data == self.data { unimplemented!() }
-    #[verifier::external_body] pub fn add_messages(self, ms: Vec<CosmosMsg>) -> (r: Response)
-        ensures r.messages@ == self.messages@ + ms@.map_values(|m: CosmosMsg| plain_sub(m)), r.data == self.data { unimplemented!() }
+    #[verifier::external_body] pub fn add_messages<L: MsgList>(self, ms: L) -> (r: Response)
+        ensures r.messages@ == self.messages@ + ms.subs(), r.data == self.data { unimplemented!() }
     #[verifier::external_body] pub fn add_submessage(self, m: SubMsg) -> (r: Response)
         ensures r.messages@ == self.messages@.push(m), r.data == self.data { unimplemented!() }
     #[verifier::external_body] pub fn add_submessages(self, ms: Vec<SubMsg>) -> (r: Response)
